@@ -1374,6 +1374,12 @@ pub fn duplex_causes(case_seed: u64, events: &[crate::events::Event], view: &Wir
             break;
         }
     }
+    for from_init in [true, false] {
+        if mon::diag::zero_window_update_overtaken(view, 0, from_init, t_fail) {
+            out.push("zero-window-update-overtaken".to_string());
+            break;
+        }
+    }
     if mon::diag::retransmissions_exhausted_into_zero_window(events, view, 0) {
         out.push("zero-window-retransmissions-exhausted".to_string());
     }
